@@ -6,10 +6,12 @@
 (* The hash function is only consulted on the replica strings of the node  *)
 (* universe (Itoa(i) ++ name) and on the lookup key; a lookup key is the   *)
 (* pair (hash value, name), so "all key strings" = all hash values times   *)
-(* tie-break names around/equal to the node names.  TLC walks the tree of  *)
-(* partial assignments (one replica string per level) so that its workers  *)
-(* share the leaves; the laws are evaluated at the leaves (complete        *)
-(* assignments), for every non-empty subset of the universe.               *)
+(* tie-break names below / equal to / between / above the node names.      *)
+(* TLC walks the tree of partial assignments (one replica string per       *)
+(* level) so that its workers share the leaves.  On completing an          *)
+(* assignment the rings of all non-empty subsets of the universe and the   *)
+(* owner of every key in each of them are computed once (variable `tab`);  *)
+(* the laws are invariants over `tab`.                                     *)
 (***************************************************************************)
 EXTENDS RingRef, SequencesExt
 
@@ -19,61 +21,71 @@ CONSTANTS NodeSeq,    \* the node universe, a sequence of byte strings
           KeyNames    \* tie-break names of lookup keys (byte strings)
 
 U == 1..Len(NodeSeq)
-\* replica strings in a fixed order: (node 1, replica 0), (node 1, replica 1), ...
-NRS == Len(NodeSeq) * R
-RS(j) == ReplicaString((j - 1) % R, NodeSeq[((j - 1) \div R) + 1])
-
-VARIABLE asg          \* hash values chosen so far, asg[j] for RS(j)
-Init == asg = <<>>
-Next == /\ Len(asg) < NRS
-        /\ \E v \in 0..HMax : asg' = Append(asg, v)
-Spec == Init /\ [][Next]_asg
-
-Complete == Len(asg) = NRS
-\* the hash function of this leaf (total on the replica strings of the universe)
-H(s) == LET j == CHOOSE j \in 1..NRS : RS(j) = s IN <<0, asg[j]>>
-
-Canon(S) == LET idx == SetToSortSeq(S, <) IN [i \in DOMAIN idx |-> NodeSeq[idx[i]]]
-RingOf(S) == Ring(H, R, Canon(S))
+NRS == Len(NodeSeq) * R        \* replica strings: (node 1, replica 0), (node 1, replica 1), ...
 Subsets == SUBSET U \ {{}}
 Names(S) == {NodeSeq[i] : i \in S}
 Keys == (0..HMax) \X KeyNames
-Own(ring, key) == OwnerHK(ring, <<0, key[1]>>, key[2])
+
+VARIABLES asg,        \* hash values chosen so far: asg[(n-1)*R + i + 1] = hash of replica i of node n
+          tab         \* <<>> until the assignment is complete, then [ring, own]
+vars == <<asg, tab>>
+
+\* the hash function of a leaf, as RingRef wants it: total on the replica strings of the universe
+RSTab == [j \in 1..NRS |-> ReplicaString((j - 1) % R, NodeSeq[((j - 1) \div R) + 1])]
+HashOf(a, s) == LET j == CHOOSE j \in 1..NRS : RSTab[j] = s IN <<0, a[j]>>
+
+Listing(S, p) == LET base == SetToSortSeq(S, <) IN [i \in DOMAIN base |-> NodeSeq[p[base[i]]]]
+Ident(S) == [x \in S |-> x]
+
+Tables(a) ==
+  LET H(s) == HashOf(a, s)
+      ring == [S \in Subsets |-> Ring(H, R, Listing(S, Ident(S)))]
+  IN [ring |-> ring,
+      own  |-> [S \in Subsets |-> [key \in Keys |-> OwnerHK(ring[S], <<0, key[1]>>, key[2])]],
+      perm |-> [S \in Subsets |-> {Ring(H, R, Listing(S, p)) : p \in Permutations(S)}]]
+
+Init == asg = <<>> /\ tab = <<>>
+Next == /\ Len(asg) < NRS
+        /\ \E v \in 0..HMax :
+              /\ asg' = Append(asg, v)
+              /\ tab' = IF Len(asg) + 1 = NRS THEN Tables(asg') ELSE <<>>
+Spec == Init /\ [][Next]_vars
+
+Complete == Len(asg) = NRS
 
 \* ---- the laws (property C17, ring half) -------------------------------
+\* whatever order the nodes are listed in: the same ring, hence the same owners and signature
 OrderIndependent ==
   Complete => \A S \in Subsets :
-     \A p \in Permutations(S) :  \* p: a bijection S -> S; list the nodes in the order p induces
-        LET base == SetToSortSeq(S, <)
-            listing == [i \in DOMAIN base |-> NodeSeq[p[base[i]]]]
-        IN /\ Ring(H, R, listing) = RingOf(S)
-           /\ Signature(Ring(H, R, listing)) = Signature(RingOf(S))
+     /\ tab.perm[S] = {tab.ring[S]}
+     /\ {Signature(r) : r \in tab.perm[S]} = {Signature(tab.ring[S])}
 
+\* every key maps to exactly one node, and it is a member
 Total ==
-  Complete => \A S \in Subsets : LET ring == RingOf(S) IN
-     \A key \in Keys : Own(ring, key) \in Names(S)
+  Complete => \A S \in Subsets : \A key \in Keys : tab.own[S][key] \in Names(S)
 
+\* removing a node moves only the keys it owned
 MinimalMovementOnRemove ==
   Complete => \A S \in Subsets : Cardinality(S) >= 2 =>
-     LET ring == RingOf(S) IN
-     \A n \in S : LET less == RingOf(S \ {n}) IN
-        \A key \in Keys : Own(ring, key) # NodeSeq[n] => Own(less, key) = Own(ring, key)
+     \A n \in S : \A key \in Keys :
+        tab.own[S][key] # NodeSeq[n] => tab.own[S \ {n}][key] = tab.own[S][key]
 
+\* adding a node moves keys only to it
 MinimalMovementOnAdd ==
-  Complete => \A S \in Subsets : LET ring == RingOf(S) IN
-     \A n \in U \ S : LET more == RingOf(S \cup {n}) IN
-        \A key \in Keys : Own(more, key) \in {Own(ring, key), NodeSeq[n]}
+  Complete => \A S \in Subsets : \A n \in U \ S : \A key \in Keys :
+     tab.own[S \cup {n}][key] \in {tab.own[S][key], NodeSeq[n]}
 
-\* equal signature <=> same node set (so that nodes with different membership detect it)
+\* equal signature <=> same membership (so that nodes with different membership detect it)
 SignatureEqualIffSameRing ==
   Complete => \A S1, S2 \in Subsets :
-     (Signature(RingOf(S1)) = Signature(RingOf(S2))) <=> (S1 = S2)
+     (Signature(tab.ring[S1]) = Signature(tab.ring[S2])) <=> (S1 = S2)
 
-\* the ring really is the sorted replica list and lookup agrees with a linear scan of it
+\* the ring is the sorted replica list
 WellFormed ==
-  Complete => \A S \in Subsets : LET ring == RingOf(S) IN
+  Complete => \A S \in Subsets : LET ring == tab.ring[S] IN
      /\ Len(ring) = R * Cardinality(S)
      /\ \A i \in 1..(Len(ring) - 1) : ~ElemLess(ring[i + 1], ring[i])
+     /\ {ring[i].k : i \in DOMAIN ring} = Names(S)
 
 \* ---- model values for the .cfg files (a cfg cannot spell nested tuples) ----
 \* node names "b","d","f","h"; key names "", "a", "b" (= a node), "c", "d0", "i"
